@@ -88,7 +88,9 @@ func upperFirst(s string) string {
 	return strings.ToUpper(s[:1]) + s[1:]
 }
 
-func screamingSnake(s string) string { return strings.ToUpper(lowerCamelToSnake(strings.ToLower(s[:1]) + s[1:])) }
+func screamingSnake(s string) string {
+	return strings.ToUpper(lowerCamelToSnake(strings.ToLower(s[:1]) + s[1:]))
+}
 
 // protoc's name of a map entry message
 func mapEntryName(snake string) string { return protocJSONNameUpper(snake) + "Entry" }
